@@ -677,7 +677,7 @@ with get_inline_expression (n : nat) (only_literal : bool) : M inline :=
             advance 1 ;;;
             id <- get_identifier ;;
             ret (VariableReference id)
-          else if is_ascii_alphabetic b then
+          else if is_ascii_alphabetic b && negb only_literal then
             advance 1 ;;;
             id <- get_identifier_unchecked ;;
             arguments <- get_call_arguments n' ;;
